@@ -184,25 +184,23 @@ theorem C08_read_step_refines {s : CFS} (hinv : Inv max hash s) (h n : Nat) :
             rw [← hr2.data_eq, hde.1]
             exact ⟨_, rfl, Nat.le_refl _⟩
 
-/-! ### Directory rules: what a rename does to the flat map (known finding F12) -/
+/-! ### Directory rules: what a rename does to the flat map (finding F13, fixed by 100856b) -/
 
-/-- the directory map after a successful `Rename` of node `n` from (od, oldname) to (nd, newname) -/
+/-- the directory map after a successful `Rename` of node `n` from (od, oldname) to (nd, newname):
+store under the new name, then delete the old name unless it is the same entry (`doRename`) -/
 def renameEnts (ents : List ((Nat × String) × Node)) (od : Nat) (oldname : String) (nd : Nat) (newname : String)
+    (n : Node) : List ((Nat × String) × Node) :=
+  if od = nd ∧ oldname = newname then setEnt ents nd newname n
+  else eraseEnt (setEnt ents nd newname n) od oldname
+
+/-- what the map looked like before the fix: the old name was deleted unconditionally -/
+def renameEntsOld (ents : List ((Nat × String) × Node)) (od : Nat) (oldname : String) (nd : Nat) (newname : String)
     (n : Node) : List ((Nat × String) × Node) :=
   eraseEnt (setEnt ents nd newname n) od oldname
 
-/-- FULL statement: after renaming an existing node it is reachable under its new name. -/
-def C08_rename_keeps_node_Full : Prop :=
-  ∀ (ents : List ((Nat × String) × Node)) (od : Nat) (oldname : String) (nd : Nat) (newname : String) (n : Node),
-    child ents od oldname = some n → child (renameEnts ents od oldname nd newname n) nd newname = some n
-
-/-- The full statement is FALSE of the code (finding F12): renaming a file onto its own directory
-entry deletes the entry — `Rename("f","f")` returns nil and the file is gone. -/
-theorem C08_rename_keeps_node_full_fails : ¬ C08_rename_keeps_node_Full := by
-  intro h
-  have := h [((0, "f"), Node.file 0)] 0 "f" 0 "f" (Node.file 0) (by decide)
-  revert this
-  decide
+/-- Regression witness for F13: with the unconditional delete, `Rename("f","f")` lost the file. -/
+theorem C08_rename_old_code_lost_node :
+    child (renameEntsOld [((0, "f"), Node.file 0)] 0 "f" 0 "f" (Node.file 0)) 0 "f" = none := by decide
 
 theorem child_setEnt_self (ents : List ((Nat × String) × Node)) (d : Nat) (name : String) (n : Node) :
     child (setEnt ents d name n) d name = some n := by
@@ -246,14 +244,134 @@ theorem child_eraseEnt_self (ents : List ((Nat × String) × Node)) (d : Nat) (n
     simpa using this
   rw [this]; rfl
 
-/-- PARTIAL statement (what holds of the code): when source and target are different directory
-entries, the node is reachable under the new name and no longer under the old one. -/
-theorem C08_rename_keeps_node_partial (ents : List ((Nat × String) × Node)) (od : Nat) (oldname : String)
-    (nd : Nat) (newname : String) (n : Node) (hne : (od, oldname) ≠ (nd, newname)) :
+/-- **Rename keeps the node** (full strength, holds of the fixed code): after a successful rename
+the node is reachable under its new name — also when old and new name are the same directory entry —
+and, when they are different entries, no longer under the old one. -/
+theorem C08_rename_keeps_node (ents : List ((Nat × String) × Node)) (od : Nat) (oldname : String)
+    (nd : Nat) (newname : String) (n : Node) :
     child (renameEnts ents od oldname nd newname n) nd newname = some n ∧
-    child (renameEnts ents od oldname nd newname n) od oldname = none := by
+    ((od, oldname) ≠ (nd, newname) → child (renameEnts ents od oldname nd newname n) od oldname = none) := by
   unfold renameEnts
-  exact ⟨by rw [child_eraseEnt_ne _ _ _ _ _ hne]; exact child_setEnt_self .., child_eraseEnt_self ..⟩
+  by_cases hc : od = nd ∧ oldname = newname
+  · rw [if_pos hc]
+    refine ⟨child_setEnt_self .., fun hne => ?_⟩
+    exact absurd (by rw [hc.1, hc.2]) hne
+  · rw [if_neg hc]
+    have hne : (od, oldname) ≠ (nd, newname) := by
+      intro h; apply hc; cases h; exact ⟨rfl, rfl⟩
+    exact ⟨by rw [child_eraseEnt_ne _ _ _ _ _ hne]; exact child_setEnt_self .., fun _ => child_eraseEnt_self ..⟩
+
+theorem walk_err {ents : List ((Nat × String) × Node)} {dirs : List (String × Nat)} :
+    ∀ (comps : List String) (n : Node) (e : Err), walk ents dirs n comps = Except.error e →
+      e = Err.notdir ∨ e = Err.noent := by
+  intro comps
+  induction comps with
+  | nil => intro n e h; cases n <;> simp [walk, pure, Except.pure] at h
+  | cons name rest ih =>
+    intro n e h
+    cases n with
+    | file f => simp [walk, throw, throwThe, MonadExceptOf.throw] at h; exact Or.inl h.symm
+    | dir d =>
+      simp only [walk] at h
+      split at h
+      · exact ih _ _ h
+      · split at h
+        · exact ih _ _ h
+        · split at h
+          · simp [throw, throwThe, MonadExceptOf.throw] at h; exact Or.inr h.symm
+          · exact ih _ _ h
+
+theorem lookupDir_err {F P W : Type} (s : FS F P W) (comps : List String) (e : Err)
+    (h : lookupDir s comps = Except.error e) : e ≠ Err.ok := by
+  unfold lookupDir at h
+  cases hw : walk s.ents s.dirs (Node.dir 0) comps with
+  | error e' =>
+    rw [hw] at h
+    simp [throw, throwThe, MonadExceptOf.throw] at h
+    rcases walk_err _ _ _ hw with h1 | h1 <;> (rw [← h, h1]; decide)
+  | ok n =>
+    rw [hw] at h
+    cases n with
+    | dir d => simp [pure, Except.pure] at h
+    | file f => simp [throw, throwThe, MonadExceptOf.throw] at h; rw [← h]; decide
+
+theorem ite_err_elim {F P W : Type} {c : Prop} [Decidable c] {s s' : FS F P W} {X : FS F P W × Res} {e : Err}
+    (he : e ≠ Err.ok) (h : (if c then (s, Res.err e) else X) = (s', Res.err Err.ok)) :
+    X = (s', Res.err Err.ok) := by
+  by_cases hc : c
+  · rw [if_pos hc] at h
+    simp only [Prod.mk.injEq, Res.err.injEq] at h
+    exact absurd h.2 he
+  · rw [if_neg hc] at h; exact h
+
+/-- Tie between `renameEnts` and the step function: a `Rename` that reports success has resolved an
+existing source node `n` at `(od, oldname)` and left exactly the entries `renameEnts …`. Together
+with `C08_rename_keeps_node`: after every successful rename the node is reachable under its new name. -/
+theorem C08_rename_step {F P W : Type} (s s' : FS F P W) (old new : String)
+    (h : doRename s old new = (s', Res.err Err.ok)) :
+    ∃ od oldname nd newname n, child s.ents od oldname = some n ∧
+      s'.ents = renameEnts s.ents od oldname nd newname n := by
+  unfold doRename at h
+  generalize splitDirBase old = sp at h
+  obtain ⟨ocomps, oldname⟩ := sp
+  generalize splitDirBase new = sp2 at h
+  obtain ⟨ncomps, newname0⟩ := sp2
+  simp only [] at h
+  have h := ite_err_elim (by decide) h
+  cases hod : lookupDir s ocomps with
+  | error e =>
+    rw [hod] at h
+    simp only [Prod.mk.injEq, Res.err.injEq] at h
+    exact absurd h.2 (lookupDir_err s ocomps e hod)
+  | ok od =>
+    rw [hod] at h
+    simp only [] at h
+    have h := ite_err_elim (by decide) h
+    cases hnd : lookupDir s ncomps with
+    | error e =>
+      rw [hnd] at h
+      simp only [Prod.mk.injEq, Res.err.injEq] at h
+      exact absurd h.2 (lookupDir_err s ncomps e hnd)
+    | ok nd =>
+      rw [hnd] at h
+      simp only [] at h
+      cases hch : child s.ents od oldname with
+      | none => rw [hch] at h; simp at h
+      | some n =>
+        rw [hch] at h
+        simp only [] at h
+        have h := ite_err_elim (by decide) h
+        obtain ⟨newname, hnn⟩ : ∃ nn, nn = (if (newname0 == "") = true then oldname else newname0) := ⟨_, rfl⟩
+        rw [← hnn] at h
+        have hents : ∀ (x : FS F P W), (setNameParent x n newname nd).ents = x.ents := by
+          intro x
+          cases n with
+          | dir k => rfl
+          | file f => simp only [setNameParent]; cases x.files[f]? <;> rfl
+        have hfin : ∀ (t : FS F P W × Res),
+            t = ({ (setNameParent { s with ents := setEnt s.ents nd newname n } n newname nd) with
+                    ents := if od = nd ∧ oldname = newname then
+                        (setNameParent { s with ents := setEnt s.ents nd newname n } n newname nd).ents
+                      else eraseEnt (setNameParent { s with ents := setEnt s.ents nd newname n } n newname nd).ents od oldname },
+                  Res.err Err.ok) →
+            t = (s', Res.err Err.ok) → s'.ents = renameEnts s.ents od oldname nd newname n := by
+          intro t ht ht'
+          rw [ht] at ht'
+          simp only [Prod.mk.injEq] at ht'
+          rw [← ht'.1]
+          simp only [hents]
+          unfold renameEnts
+          by_cases hc : od = nd ∧ oldname = newname
+          · simp only [if_pos hc]
+          · simp only [if_neg hc]
+        refine ⟨od, oldname, nd, newname, n, hch, ?_⟩
+        cases hex : child s.ents nd newname with
+        | none => rw [hex] at h; exact hfin _ rfl h
+        | some x =>
+          rw [hex] at h
+          cases x with
+          | dir k => simp at h
+          | file f => exact hfin _ rfl h
 
 /-! ### Non-vacuity -/
 
